@@ -18,6 +18,9 @@ def run(ctx):
     dynalloc.rule_id_indexed_vectors(ctx)
     dyn.rule_cached_witness_consistent(ctx)
     dyncnf.rule_dynamic_variable_registration(ctx)
+    dyncnf.rule_removal_cleans_the_tables(ctx)
+    from . import dyn as _dyn
+    _dyn.rule_decoders_keep_true_variables(ctx)
     cli.rule_encoder_selection(ctx)  # DC-PR certificates are complete extensions only if the credulous PR path gets the complete encoder
     ctx.assume("rustc's MIR / borrow checker; summaries of sa/shapes.py (bool/Option/tuple shapes, callee summaries, relational restriction by dominating conditions)")
     return (
